@@ -16,6 +16,8 @@ pub struct SOut {
     pub steps: usize,
     pub probes: BTreeMap<&'static str, u64>,
     pub nontrivial: bool,
+    /// an oracle that belongs to a different property fired (run abandoned quietly, counted)
+    pub foreign: Option<String>,
 }
 
 impl SOut {
@@ -141,6 +143,7 @@ pub fn run_scenario<S: Scenario>(s: &S, bc: &BatchCfg) -> BatchOut {
         viol: Option<(u64, J)>,
         samples: Vec<(u64, J)>,
         strat_done: u64,
+        foreign: u64,
     }
     let total = bc.runs.max(strat.min(bc.runs));
     let ws: Vec<W> = std::thread::scope(|sc| {
@@ -148,7 +151,7 @@ pub fn run_scenario<S: Scenario>(s: &S, bc: &BatchCfg) -> BatchOut {
         for w in 0..threads {
             let name = name.clone();
             hs.push(sc.spawn(move || {
-                let mut st = W { runs: 0, steps: 0, probes: BTreeMap::new(), digests: HashSet::new(), nontrivial: HashSet::new(), batch_digest: 0, viol: None, samples: Vec::new(), strat_done: 0 };
+                let mut st = W { runs: 0, steps: 0, probes: BTreeMap::new(), digests: HashSet::new(), nontrivial: HashSet::new(), batch_digest: 0, viol: None, samples: Vec::new(), strat_done: 0, foreign: 0 };
                 let mut i = w as u64;
                 while i < total {
                     if st.viol.is_some() || start.elapsed().as_secs_f64() > bc.max_secs {
@@ -173,6 +176,9 @@ pub fn run_scenario<S: Scenario>(s: &S, bc: &BatchCfg) -> BatchOut {
                     }
                     let mut mix = seed ^ out.digest;
                     st.batch_digest = st.batch_digest.wrapping_add(splitmix64(&mut mix));
+                    if out.foreign.is_some() {
+                        st.foreign += 1;
+                    }
                     match &out.fail {
                         None => {
                             if st.samples.len() < 2 && ops.len() >= 3 && ops.len() <= 10 && out.nontrivial {
@@ -216,6 +222,7 @@ pub fn run_scenario<S: Scenario>(s: &S, bc: &BatchCfg) -> BatchOut {
         }
         samples.extend(w.samples);
         strat_done += w.strat_done;
+        out.foreign += w.foreign;
     }
     samples.sort_by_key(|s: &(u64, J)| s.0);
     out.samples = samples.into_iter().take(2).map(|s| s.1).collect();
